@@ -395,7 +395,9 @@ func RunScenario(t *testing.T, rec *Recorder, sc *Scenario) {
 		switch ren {
 		case "check":
 			tb := NewRecTB(name, rec)
+			InvStart() // (the whole engine call is watched, not only the property function)
 			how, pv := tb.Run(func() { rapid.Check(tb, prop) })
+			InvStop()
 			rec.Emit("run.end", F{"run": i + 1, "how": how, "panic": fmt.Sprint(pv), "failed": tb.Failed(), "failnow": tb.failNow, "skipped": tb.skipped})
 			prevSeed, prevFile = lastRepr(tb)
 		case "makecheck":
@@ -413,6 +415,8 @@ func RunScenario(t *testing.T, rec *Recorder, sc *Scenario) {
 					r.mu.Unlock()
 					rec.Emit("timing", F{"run": i + 1, "hasdeadline": has, "remain_ms": int(time.Until(d) / time.Millisecond), "invs": n, "total_ms": int(ns / int64(time.Millisecond))})
 				}()
+				InvStart()
+				defer InvStop()
 				if early != nil {
 					early(st)
 				} else {
@@ -471,6 +475,8 @@ func RunScenario(t *testing.T, rec *Recorder, sc *Scenario) {
 							status = "skipped"
 						}
 					}()
+					InvStart()
+					defer InvStop()
 					fz(st, input)
 					completed = true
 				})
@@ -552,7 +558,46 @@ var Captured struct {
 // CurPhase is the kind of the invocation in progress (from the phase hook).
 var CurPhase atomic.Value
 
+// RejState: has the last rejection of a repeat (collection element, Repeat action) made it stop -- "enough rejections, and the minimum is
+// reached" -- and how many coins have been flipped since (the forced stop waits for a coin that stops by itself)
+var RejState struct {
+	mu      sync.Mutex
+	pending bool
+	coins   int
+}
+
+func rejHook(ev string, kv []any) {
+	switch ev {
+	case "repeat.reject":
+		var min, count, rej int
+		for i := 0; i+1 < len(kv); i += 2 {
+			switch kv[i] {
+			case "min":
+				min, _ = kv[i+1].(int)
+			case "count":
+				count, _ = kv[i+1].(int)
+			case "rejections":
+				rej, _ = kv[i+1].(int)
+			}
+		}
+		RejState.mu.Lock()
+		RejState.pending, RejState.coins = rej > 2*count && count >= min, 0
+		RejState.mu.Unlock()
+	case "repeat.more":
+		RejState.mu.Lock()
+		RejState.pending = false
+		RejState.mu.Unlock()
+	case "coin":
+		RejState.mu.Lock()
+		if RejState.pending {
+			RejState.coins++
+		}
+		RejState.mu.Unlock()
+	}
+}
+
 func CaptureHook(ev string, kv []any) {
+	rejHook(ev, kv)
 	if ev == "phase" {
 		for i := 0; i+1 < len(kv); i += 2 {
 			if kv[i] == "kind" {
